@@ -210,6 +210,31 @@ impl Scenario for C18 {
         if let Some(f) = header_equal(&lite, &full) {
             r.violate(format!("C18|header-differs|{}", f), format!("lite block field {} differs from the full block (n {}, pattern {:?})", f, plan.n, plan.pattern));
         }
+        // the same projection on a copy of the block whose signed header fields all carry distinct non-zero
+        // values (on a short history most of them are zero, and a field the projection forgets to copy would
+        // go unnoticed): the lite block's signed header bytes and its hash after the wire must be the full ones
+        {
+            let mut fb = full.clone();
+            fb.graveyard = 1_001;
+            fb.treasury = 1_002;
+            fb.burnfee = 1_003;
+            fb.difficulty = 4;
+            fb.avg_fee_per_byte = 1_005;
+            fb.avg_nolan_rebroadcast_per_block = 1_006;
+            fb.previous_block_unpaid = 1_007;
+            fb.avg_total_fees = 1_008;
+            fb.avg_total_fees_new = 1_009;
+            fb.avg_total_fees_atr = 1_010;
+            fb.avg_payout_routing = 1_011;
+            fb.avg_payout_mining = 1_012;
+            let l2 = fb.generate_lite_block(keylist.clone());
+            if l2.serialize_for_signature() != fb.serialize_for_signature() {
+                r.violate(
+                    "C18|header-differs|synthetic-nonzero-header",
+                    format!("with every signed header field non-zero the lite block's signed header bytes differ from the full block's (n {}, pattern {:?})", plan.n, plan.pattern),
+                );
+            }
+        }
         // every touching transaction present unmodified
         for t in full.transactions.iter().filter(|t| touches(t, &keylist)) {
             let found = lite.transactions.iter().any(|l| l.signature == t.signature && l.transaction_type == t.transaction_type && l.from == t.from && l.to == t.to && l.data == t.data);
